@@ -62,6 +62,18 @@ def step (s : St) (w : List String) : St × Out :=
       | some t => ({ tok := some t, poisoned := false }, { model := "ok" })
       | none => ({ tok := none, poisoned := false }, { model := "null" })
     | _, _ => (s, { model := "bad-op" })
+  | ["fdx", d, h] =>
+    -- json_object_from_fd_ex(fd, depth) on the whole text: one in-memory parse with a tokener of that depth (C20), here
+    -- only the value / refusal is looked at
+    match parseInt? d, ofHex h with
+    | some d, some data =>
+      match Tokener.new d 0 with
+      | some t =>
+        let f := parseEx refLibc t data
+        let v := match f.err, f.value with | .success, some v => v.dump | _, _ => "-"
+        (s, { model := "fdx " ++ v, cov := ["fdx"] })
+      | none => (s, { model := "fdx -", cov := ["fdx"] })
+    | _, _ => (s, { model := "bad-op" })
   | ["p", h] => match ofHex h with | some d => parseWith s d false | none => (s, { model := "bad-op" })
   | ["pz", h] => match ofHex h with | some d => parseWith s d true | none => (s, { model := "bad-op" })
   | ["doc", d, h] =>
